@@ -162,6 +162,38 @@ theorem C18_output_default_recommend (a : RecArgs) (w : World) (p : RecPlan)
   rw [← hpp, hout, hbase, hb]
   exact ⟨hpfx, p1, p2, rfl, hcost, o1, o2, o3⟩
 
+/-- **C18 (stdout mode)** — repair 8fecc4f (finding 24). The messages of the command go to stderr
+exactly when the program list goes to stdout: in STDOUT mode the standard output is the selection
+the library produces and nothing else. -/
+theorem C18_stdout_mode (a : RecArgs) (w : World) (p : RecPlan) (h : recommendPlan a w = .run p) :
+    (p.messagesOnStderr = true ↔ p.out = .stdout) ∧
+    (p.out = .stdout ↔ a.output.map asciiUpper = "STDOUT".toList) := by
+  obtain ⟨_, _, _, _, _, _, _, hout⟩ := recommendPlan_run a w p h
+  have hm : p.messagesOnStderr = decide (a.output.map asciiUpper = "STDOUT".toList) := by
+    unfold recommendPlan at h
+    simp only at h
+    split at h
+    · cases h
+    · split at h
+      · cases h
+      · split at h
+        · cases h
+        · split at h
+          · cases h
+          · cases h; rfl
+  have ho : p.out = .stdout ↔ a.output.map asciiUpper = "STDOUT".toList := by
+    rw [hout]
+    unfold recOut
+    constructor
+    · intro h'
+      split at h'
+      · assumption
+      · split at h' <;> cases h'
+    · intro h'; rw [if_pos h']
+  refine ⟨?_, ho⟩
+  rw [hm, ho]
+  simp
+
 /-! ## tag -/
 
 /-- **C18 (tag).** `tag` calls `cli_tag.main` on the file's text with: labels iff `--labels`, the
